@@ -327,7 +327,53 @@ impl<'tcx> Cx<'tcx> {
                 o.set("indirect", J::Bool(true));
             }
         }
+        // aggregates (arrays / tuples / structs / enums with data): destructured element-wise, bounded depth
+        if !o.has("elems_hex") && !o.has("bytes_hex") {
+            if let Some(d) = self.destructure_json(val, ty, 0) {
+                o.set("agg", d);
+            }
+        }
         o
+    }
+
+    fn destructure_json(&self, val: ConstValue, ty: Ty<'tcx>, depth: u32) -> Option<J> {
+        let tcx = self.tcx;
+        if depth > 3 {
+            return None;
+        }
+        let is_agg = match ty.kind() {
+            TyKind::Array(et, _) => *et != tcx.types.u8,
+            TyKind::Tuple(ts) => !ts.is_empty(),
+            TyKind::Adt(adt, _) => adt.is_enum() || adt.is_struct(),
+            _ => false,
+        };
+        if !is_agg {
+            return None;
+        }
+        let d = tcx.try_destructure_mir_constant_for_user_output(val, ty)?;
+        let mut o = J::obj();
+        if let (Some(vi), TyKind::Adt(adt, _)) = (d.variant, ty.kind()) {
+            o.set("adt", J::s(tcx.item_name(adt.did()).to_string()));
+            o.set("variant", J::s(adt.variant(vi).name.to_string()));
+        }
+        let mut fs = Vec::new();
+        if d.fields.len() > 64 {
+            return None;
+        }
+        for (fv, fty) in d.fields.iter() {
+            let mut f = self.const_value_json_depth(*fv, *fty, depth + 1);
+            f.set("ty", J::s(self.ty_s(*fty)));
+            fs.push(f);
+        }
+        o.set("fields", J::Arr(fs));
+        Some(o)
+    }
+
+    fn const_value_json_depth(&self, val: ConstValue, ty: Ty<'tcx>, depth: u32) -> J {
+        if depth > 3 {
+            return J::obj();
+        }
+        self.const_value_json(val, ty)
     }
 
     fn mir_const_json(&self, c: &MirConst<'tcx>, env: TypingEnv<'tcx>) -> J {
